@@ -9,6 +9,7 @@
   observed with read-only arrays and a byte-for-byte comparison.
 -/
 import DfolsVerif.Accept.RngAcc
+import DfolsVerif.Proofs.RngSites
 
 namespace Dfols
 namespace C19
@@ -19,6 +20,31 @@ open RngAcc in
 theorem C19_rng_free (c : Cfg) (hc : c.usesRandom = false) (sites : List Site) (s : St)
     (h : accept c sites = .ok s) : s.draws = 0 ∧ ∀ x ∈ sites, x = .projSelector ∧ c.projections = true :=
   RngAcc.C19_rng_free c hc sites s h
+
+/-! ### layer G: where the global generator can be reached from (tables generated from /repo's AST on every run) -/
+
+/-- **static reach of NumPy's global generator**: a draw happens only (i) in the rank-repair loops of the coordinate
+    initialisation under `if self.model.projections`, or (ii) in the two drawing helpers of util.py, which are called
+    only from `initialise_random_directions` (reached under `init.random_initial_directions`), the two growing
+    routines (reached under `not finished_growing`), `move_furthest_points_momentum` (reached under
+    `regression.momentum_extra_steps`) and `soft_restart` under `restarts.increase_npt` — exactly the five
+    configuration bits `RngAcc` allows draws for. -/
+theorem C19_src_rng_reach :
+    (∀ s ∈ Gen.rngDraws,
+      s.func = "util.py:random_orthog_directions_within_bounds" ∨ s.func = "util.py:random_directions_within_bounds" ∨
+      (s.func = "controller.py:initialise_coordinate_directions" ∧ RngSites.pos "self.model.projections" ∈ s.path)) ∧
+    (∀ s ∈ Gen.rngHelperCalls,
+      s.func = "controller.py:initialise_random_directions" ∨ s.func = "controller.py:add_new_direction_while_growing" ∨
+      s.func = "controller.py:get_new_direction_for_growing" ∨ s.func = "controller.py:move_furthest_points_momentum" ∨
+      (s.func = "controller.py:soft_restart" ∧ RngSites.pos "params('restarts.increase_npt')" ∈ s.path)) ∧
+    (∀ s ∈ Gen.rngMethodCalls,
+      (s.callee = "initialise_random_directions" → RngSites.pos "params('init.random_initial_directions')" ∈ s.path) ∧
+      (s.callee = "move_furthest_points_momentum" → RngSites.pos "params('regression.momentum_extra_steps')" ∈ s.path) ∧
+      (s.callee = "add_new_direction_while_growing" → RngSites.neg "finished_growing" ∈ s.path) ∧
+      (s.callee = "get_new_direction_for_growing" → RngSites.neg "finished_growing" ∈ s.path)) :=
+  ⟨RngSites.draws_located, RngSites.helper_calls_located,
+   fun s hs => ⟨(RngSites.method_calls_guarded s hs).1, (RngSites.method_calls_guarded s hs).2.1,
+                (RngSites.method_calls_guarded s hs).2.2.1, (RngSites.method_calls_guarded s hs).2.2.2.1⟩⟩
 
 end C19
 end Dfols
